@@ -265,7 +265,12 @@ class NdiStub:
         """plain grouping sum (exact)"""
         inp = A._obj(A.to_symarray(input)).reshape(-1)
         lab = np.asarray(labels).reshape(-1)
-        idx = np.asarray(index).reshape(-1)
+        if getattr(index, "_symx_passthrough", False) and hasattr(index, "length") and not isinstance(index.length, int):
+            # a range of symbolic length (labels computed with an opaque square root): one opaque group; callers of this mode only inspect the inputs
+            idx = np.empty(1, dtype=object)
+            idx[0] = index
+        else:
+            idx = np.asarray(index).reshape(-1)
         out = np.empty(idx.shape, dtype=object)
         for k, i in enumerate(idx):
             acc = 0
